@@ -337,7 +337,7 @@ func flattenNPMDeps(deps *pb.Requirements_NPM_Dependencies) []RequirementVersion
 				VersionType: Requirement,
 				Version:     "*",
 			},
-			Type: bundleType,
+			Type: bundleType.Clone(),
 		})
 	}
 	SortDependencies(flattened)
